@@ -109,13 +109,13 @@ impl Formatter {
             // Multi-line docstring
             self.writer.writeln("\"\"\"");
             for line in trimmed.lines() {
-                self.writer.writeln(line);
+                self.writer.writeln(&line.replace('\\', "\\\\"));
             }
             self.writer.writeln("\"\"\"");
         } else {
             // Single-line docstring
             self.writer.write("\"\"\"");
-            self.writer.write(trimmed);
+            self.writer.write(&trimmed.replace('\\', "\\\\"));
             self.writer.writeln("\"\"\"");
         }
     }
